@@ -1,5 +1,6 @@
 (* Properties/C04.v — invalid command lines are rejected with exit status 2; accepted results are well typed. *)
 From SPV Require Import Base.Str Model.BoolFlag Model.Leaf Model.LeafSpec Gen.FactsBool Gen.FactsLeaf Proofs.LeafProofs.
+From SPV Require Import Model.Namespace Model.ArgparseM Model.ArgparseMSpec Proofs.ArgparseMProofs Proofs.ArgparsePipeline Proofs.LeafReject.
 
 (* whatever token list follows the option: if the field's parse is accepted, the value conforms to the annotation *)
 Theorem C04_accepted_is_well_typed : forall t toks v,
@@ -47,6 +48,79 @@ Theorem C04_reject_value_on_negative_flag : forall negs o v,
   str_in o negs = true -> eval_occ_gen negs (Valued o v) = Err (Exit 2).
 Proof. exact reject_value_on_negative_flag. Qed.
 Print Assumptions C04_reject_value_on_negative_flag.
+
+(* ---- the two mutation classes that are argparse's own, as theorems about the composition of the leaf model with the
+   token-level argparse model (Proofs/LeafReject.v).  fs: ANY list of fields (dest, annotation, optional default) whose
+   argparse action is a store action with a position-free converter (rfield_ok, as in ARGP_leaf_pipeline); the action
+   list is acts_of_rfields fs (option `--dest`, nargs/converter/choices from Leaf.arg_options, required iff no default);
+   argv is made of well-formed groups (group_ok: exact option, admissible token count, argument-class tokens);
+   leaf_parse_args = the argparse model's parse_args with the regenerated converters. ---- *)
+
+(* a required field that is not written: status 2, whatever else is written *)
+Theorem C04_missing_required_rejected : forall ab fs gs j f,
+  NoDup (map rf_dest fs) -> forallb rfield_ok fs = true ->
+  forallb (group_ok ab (acts_of_rfields fs)) gs = true ->
+  nth_error fs j = Some f -> rf_dflt f = None -> ~ In j (map g_idx gs) ->
+  leaf_parse_args ab fs (flatten gs) = Err (Exit 2).
+Proof. exact missing_required_rejected_gen. Qed.
+Print Assumptions C04_missing_required_rejected.
+
+(* an option the parser does not know (tok_unknown: the model's own lexer answers CUnknown: not an option string, not
+   `opt=v`, not an abbreviation / single-dash prefix of one, not negative-number-like, no blank), written at any group
+   boundary: status 2, never skipped *)
+Theorem C04_unknown_option_rejected : forall ab fs gs1 u gs2,
+  forallb rfield_ok fs = true ->
+  forallb (group_ok ab (acts_of_rfields fs)) gs1 = true -> forallb (group_ok ab (acts_of_rfields fs)) gs2 = true ->
+  tok_unknown ab (acts_of_rfields fs) u = true ->
+  leaf_parse_args ab fs (flatten gs1 ++ u :: flatten gs2) = Err (Exit 2).
+Proof. exact unknown_option_rejected_gen. Qed.
+Print Assumptions C04_unknown_option_rejected.
+
+(* one value token too many after a complete group of a fixed-arity field (nargs None or N): status 2 *)
+Theorem C04_surplus_token_rejected : forall ab fs gs1 g v gs2 f,
+  forallb rfield_ok fs = true ->
+  forallb (group_ok ab (acts_of_rfields fs)) gs1 = true -> group_ok ab (acts_of_rfields fs) g = true ->
+  forallb (group_ok ab (acts_of_rfields fs)) gs2 = true ->
+  nth_error fs (g_idx g) = Some f ->
+  fixed_arity (a_na (act_of_rfield f)) (List.length (g_toks g)) = true ->
+  tok_plain ab (acts_of_rfields fs) v = true ->
+  leaf_parse_args ab fs (flatten gs1 ++ group_tokens g ++ v :: flatten gs2) = Err (Exit 2).
+Proof. exact surplus_token_rejected_gen. Qed.
+Print Assumptions C04_surplus_token_rejected.
+
+(* non-vacuity: concrete fields (one required) and command lines satisfying every hypothesis of the three theorems;
+   the same parser accepts the unmutated command line *)
+Definition c04_fields : list rfield :=
+  [ mkrfield "lr" TInt None; mkrfield "names" (TList TStr) (Some (RMany []));
+    mkrfield "shape" (TTupFix [TInt; TInt]) (Some RNone); mkrfield "temp" (TOpt TFloat) (Some RNone) ].
+Example C04_reject_nonvacuous :
+  NoDup (map rf_dest c04_fields) /\ forallb rfield_ok c04_fields = true
+  /\ forallb (fun f => cli_type (rf_ty f)) c04_fields = true
+  (* accepted *)
+  /\ leaf_parse_args true c04_fields ["--lr"; "5"; "--names"; "a"; "b"; "--shape"; "1"; "2"] =
+       Ok [("lr", SOne (VInt 5)); ("names", SMany [VStr "a"; VStr "b"]); ("shape", SMany [VInt 1; VInt 2]); ("temp", SNone)]
+  (* missing required *)
+  /\ forallb (group_ok true (acts_of_rfields c04_fields)) [mkgroup 1 "--names" ["a"; "b"]; mkgroup 3 "--temp" ["-2.5"]] = true
+  /\ nth_error c04_fields 0 = Some (mkrfield "lr" TInt None)
+  /\ ~ In 0 (map g_idx [mkgroup 1 "--names" ["a"; "b"]; mkgroup 3 "--temp" ["-2.5"]])
+  /\ leaf_parse_args true c04_fields ["--names"; "a"; "b"; "--temp"; "-2.5"] = Err (Exit 2)
+  (* unknown option *)
+  /\ forallb (group_ok true (acts_of_rfields c04_fields)) [mkgroup 0 "--lr" ["5"]] = true
+  /\ forallb (group_ok true (acts_of_rfields c04_fields)) [mkgroup 1 "--names" ["a"]] = true
+  /\ tok_unknown true (acts_of_rfields c04_fields) "--zzz" = true
+  /\ tok_unknown true (acts_of_rfields c04_fields) "-q" = true
+  /\ tok_unknown true (acts_of_rfields c04_fields) "--na" = false
+  /\ leaf_parse_args true c04_fields ["--lr"; "5"; "--zzz"; "--names"; "a"] = Err (Exit 2)
+  (* surplus token *)
+  /\ group_ok true (acts_of_rfields c04_fields) (mkgroup 2 "--shape" ["1"; "2"]) = true
+  /\ fixed_arity (a_na (act_of_rfield (mkrfield "shape" (TTupFix [TInt; TInt]) (Some RNone)))) 2 = true
+  /\ tok_plain true (acts_of_rfields c04_fields) "3" = true
+  /\ leaf_parse_args true c04_fields ["--lr"; "5"; "--shape"; "1"; "2"; "3"; "--names"; "a"] = Err (Exit 2).
+Proof.
+  repeat split; try (vm_compute; reflexivity).
+  - apply str_nodupb_NoDup. vm_compute. reflexivity.
+  - vm_compute. intros [H|[H|[]]]; discriminate.
+Qed.
 
 Example C04_nonvacuous :
   leaf_parse_gen (TTupFix [TInt; TStr]) ["1"; "a"] = Ok (VTup [VInt 1; VStr "a"])
